@@ -182,10 +182,14 @@ Definition here_term (c : N) : bool := mem c [cSEMI; cNL; cCR; cRB; cRP].
 
 (* the search loop of walk_here_statement for the word [w] (length [wl]); [skip] = characters
    still to be passed before str.find may match again; result: position after the accepted
-   occurrence, or the end.  An empty word whose first test fails loops forever in the code. *)
+   occurrence, or the end.  (Before the repair "max(here_len, 1)" an empty word whose first test
+   failed made the code spin on one position for ever.) *)
 Fixpoint here_search (w : str) (wl : nat) (skip : nat) (st : bool) (p : option N) (s : str) : res cur :=
   match s with
-  | [] => Ok (mkcur p [])
+  | [] => match w, skip with
+          | [], O => EIndex                  (* find("", len) = len, then buff[len] raises *)
+          | _, _ => Ok (mkcur p [])
+          end
   | x :: r =>
       match skip with
       | S k => here_search w wl k (bol_step st x) (Some x) r
@@ -196,10 +200,8 @@ Fixpoint here_search (w : str) (wl : nat) (skip : nat) (st : bool) (p : option N
             | None => EIndex
             | Some y =>
                 if here_term y && st then Ok after
-                else match wl with
-                     | O => EFuel                (* the code spins on the same position *)
-                     | S k => here_search w wl k (bol_step st x) (Some x) r
-                     end
+                else here_search w wl (Nat.pred (Nat.max wl 1)) (bol_step st x) (Some x) r
+                     (* buff.find(here_word, end_here + max(here_len, 1)) *)
             end
           else here_search w wl O (bol_step st x) (Some x) r
       end
@@ -411,7 +413,7 @@ with walk_here (n : nat) (c : cur) {struct n} : res cur :=
 End Scanner.
 
 (* ---------------------------------------------------------------- run / main_run *)
-Definition fuel_of (buf : str) : nat := 2 * length buf + 8.
+Definition fuel_of (buf : str) : nat := 3 * length buf + 8.
 
 (* filter_env.run on a buffer (main_run appends the NUL) *)
 Definition run_buf (buf : str) (vm fm : option (str -> bool)) : res str :=
